@@ -163,9 +163,21 @@ def parse_kani(out: str) -> dict:
     return res
 
 
-def extract_playback_test(out: str) -> str | None:
-    m = re.search(r"Concrete playback unit test for `[^`]*`:\n```\n(.*?)\n```", out, re.S)
-    return m.group(1) if m else None
+def extract_playback_test(out: str, failing: list[str] | None = None) -> str | None:
+    """Kani prints one unit test per failing check AND per satisfied cover. Pick a test that belongs
+    to a failing check (never a cover), preferring one whose description is in `failing`."""
+    blocks = re.findall(r"Concrete playback unit test for `[^`]*`:\n```\n(.*?)\n```", out, re.S)
+    cands = []
+    for b in blocks:
+        m = re.search(r"/// Check for `(\w+)`: \"+(.*?)\"+\s*$", b, re.M)
+        kind, desc = (m.group(1), m.group(2)) if m else ("?", "")
+        if kind == "cover":
+            continue
+        cands.append((0 if failing and any(desc and desc in f or f in desc for f in failing) else 1, b))
+    if not cands:
+        return None
+    cands.sort(key=lambda c: c[0])
+    return cands[0][1]
 
 
 # ---------------------------------------------------------------------------
@@ -229,7 +241,7 @@ def playback(ctx: Ctx, h: dict, logdir: str, prop: str) -> dict:
         rc, out, wall = run_cmd(cmd, ctx.harness_dir, 4 * h["timeout"] + 900, None)
     with open(os.path.join(logdir, h["name"] + ".playback-gen.log"), "w") as f:
         f.write(out)
-    test = extract_playback_test(out)
+    test = extract_playback_test(out, [f["description"] for f in parse_kani(out)["failures"]])
     if not test:
         res["detail"] = "kani produced no concrete playback test"
         return res
